@@ -18,6 +18,10 @@ import (
 )
 
 func runC17(x *simkit.Exec) {
+	if x.Bool("poolparallel", 1, 15) {
+		runC17PoolParallel(x)
+		return
+	}
 	if x.Bool("poolpart", 1, 3) {
 		runC17Pool(x)
 		return
@@ -425,4 +429,61 @@ func runC17Pool(x *simkit.Exec) {
 			}
 		}
 	})
+}
+
+// runC17PoolParallel is the unscheduled counterpart of (b): several really parallel goroutines ask the pool
+// for buffers at the same moment, hold what they got until all have asked, and only then return it. While
+// they hold, the bytes checked out may not exceed the budget, whatever the interleaving inside Get (which
+// has no seam the kit could schedule). Many rounds, because how soon a broken pool shows it is luck.
+func runC17PoolParallel(x *simkit.Exec) {
+	size := x.Range("pp.size", 8, 64)
+	goroutines := x.Range("pp.goroutines", 2, 6)
+	fit := x.Range("pp.fit", 1, goroutines-1) // how many buffers of that size the budget allows
+	p, err := pool.NewBucketedPool[byte](size, size, 2, uint64(fit*size))
+	if err != nil {
+		x.Troublef("c17c: NewBucketedPool: %v", err)
+		return
+	}
+	x.Sample = map[string]any{"parallel_pool_goroutines": goroutines, "buffer": size, "budget_buffers": fit}
+	x.Nontrivial = true
+	x.Probe("c17.pool_parallel_gets")
+	for r := 0; r < 6000; r++ {
+		var wg sync.WaitGroup
+		start := make(chan struct{})
+		got := make([]*[]byte, goroutines)
+		for g := 0; g < goroutines; g++ {
+			wg.Add(1)
+			go func() {
+				defer wg.Done()
+				<-start
+				if b, err := p.Get(size); err == nil {
+					got[g] = b
+				}
+			}()
+		}
+		close(start)
+		wg.Wait()
+		held := 0
+		for _, b := range got {
+			if b != nil {
+				held += cap(*b)
+			}
+		}
+		used := p.UsedBytes()
+		if held > fit*size || used > uint64(fit*size) {
+			x.Violate("pool-usage-within-budget", "parallel-gets:over-budget",
+				"round %d: %d goroutines asked BucketedPool(size %d, budget %d bytes) for one buffer each at the same moment and hold %d bytes together (UsedBytes=%d)",
+				r, goroutines, size, fit*size, held, used)
+			return
+		}
+		for _, b := range got {
+			if b != nil {
+				p.Put(b)
+			}
+		}
+		if u := p.UsedBytes(); u != 0 {
+			x.Violate("pool-usage-returns-to-zero", "parallel-gets:usage-not-zero", "round %d: every buffer was returned and UsedBytes is %d", r, u)
+			return
+		}
+	}
 }
